@@ -152,8 +152,67 @@ func hashDispatch(repo string, e *emitter, dir, coq string) {
 	fmt.Fprintf(&e.b, "Definition %s : list (string * string) := [\n  %s].\n", coq, strings.Join(items, ";\n  "))
 }
 
+// floatNormalisesZero reads, from the float32 and float64 RegisterOps closures,
+// the argument of math.Float32bits / math.Float64bits in HashWithSeed: `slice[i]+0`
+// (-0.0 is turned into +0.0 before the bits are taken) gives true, plain `slice[i]`
+// gives false; anything else, or the two widths disagreeing, is a broken tie.
+func floatNormalisesZero(repo string, e *emitter, dir, coq string) {
+	p, err := loadPkg(repo, dir)
+	if err != nil {
+		e.fail("%v", err)
+		return
+	}
+	found := map[string]string{} // Float32bits / Float64bits -> argument text
+	for _, name := range sortedKeys(p.files) {
+		for _, d := range p.files[name].Decls {
+			fd, ok := d.(*ast.FuncDecl)
+			if !ok || fd.Name.Name != "init" || fd.Recv != nil || fd.Body == nil {
+				continue
+			}
+			ast.Inspect(fd.Body, func(n ast.Node) bool {
+				kv, ok := n.(*ast.KeyValueExpr)
+				if !ok {
+					return true
+				}
+				if k, ok := kv.Key.(*ast.Ident); !ok || k.Name != "HashWithSeed" {
+					return true
+				}
+				ast.Inspect(kv.Value, func(m ast.Node) bool {
+					call, ok := m.(*ast.CallExpr)
+					if !ok || len(call.Args) != 1 {
+						return true
+					}
+					if sel, ok := call.Fun.(*ast.SelectorExpr); ok && (sel.Sel.Name == "Float32bits" || sel.Sel.Name == "Float64bits") {
+						if old, dup := found[sel.Sel.Name]; dup {
+							e.fail("%s used twice in HashWithSeed closures (%s)", sel.Sel.Name, old)
+						}
+						found[sel.Sel.Name] = srcText(p, call.Args[0])
+					}
+					return true
+				})
+				return false
+			})
+		}
+	}
+	a32, ok32 := found["Float32bits"]
+	a64, ok64 := found["Float64bits"]
+	if !ok32 || !ok64 {
+		e.fail("float HashWithSeed closures not found in %s", dir)
+		return
+	}
+	norm := map[string]string{"slice[i]+0": "true", "slice[i] + 0": "true", "slice[i]": "false"}
+	v32, k32 := norm[a32]
+	v64, k64 := norm[a64]
+	if !k32 || !k64 || v32 != v64 {
+		e.fail("float hashing left the modelled forms: Float32bits(%s), Float64bits(%s)", a32, a64)
+		return
+	}
+	fmt.Fprintf(&e.b, "Definition %s : bool := %s.\n", coq, v32)
+}
+
 func init() {
 	specs = append(specs, spec{"C05_params.v", func(repo string, e *emitter) {
+		floatNormalisesZero(repo, e, "frame", "float_hash_normalises_zero")
 		intLitsInFunc(repo, e, "frame", "hash32", "hash32_literals")
 		intLitsInFunc(repo, e, "frame", "hash64", "hash64_literals")
 		intLitsInFunc(repo, e, "frame", "Frame.Hash", "frame_hash_literals")
